@@ -13,7 +13,7 @@ import os
 import sys
 
 sys.path.insert(0, os.path.dirname(os.path.abspath(__file__)))
-from rustmini import (Unparsed, tokenize, find_fn, find_macro, find_impl, parse_body, parse_stmts,
+from rustmini import (Unparsed, tokenize, find_fn, find_macro, find_impl, find_matching, parse_body, parse_stmts,
                       parse_expr_tokens, split_commas, params_of, strip_attrs_cfg)
 
 REPO = os.environ.get('VERIF_REPO', '/repo')
@@ -538,6 +538,114 @@ def gen_space():
     return ("/-- component of `c_width` that `Space::new` multiplies the cell counter with, for the x, y, z coordinate of a grid cell's anchor -/\n"
             "def cellLocAxes : List Nat := [%d, %d, %d]\n" % tuple(axes))
 
+
+# --------------------------------------------------------------------------
+# Fragment 5: shape of the parallel loops of src/voronoi.rs (C09)
+# --------------------------------------------------------------------------
+
+def chain_of(tokens):
+    """names of the method calls at nesting depth 0 of a statement: `a.b(..).c::<T>(..)` -> [b, c]"""
+    out = []
+    depth = 0
+    i = 0
+    while i < len(tokens):
+        t = tokens[i][1]
+        if t in '([{':
+            depth += 1
+        elif t in ')]}':
+            depth -= 1
+        elif t == '.' and depth == 0 and i + 2 < len(tokens) and tokens[i + 1][0] == 'id' and tokens[i + 2][1] in ('(', '::'):
+            out.append(tokens[i + 1][1])
+        i += 1
+    return out
+
+
+def stmt_after(tokens, i):
+    """tokens of the statement starting at i, up to the `;` (or end of block) at depth 0"""
+    depth = 0
+    j = i
+    while j < len(tokens):
+        t = tokens[j][1]
+        if t in '([{':
+            depth += 1
+        elif t in ')]}':
+            if depth == 0:
+                break
+            depth -= 1
+        elif t == ';' and depth == 0:
+            break
+        j += 1
+    return tokens[i:j], j
+
+
+def gen_par():
+    src = read('src/voronoi.rs')
+    toks = tokenize(src)
+    macros = {}
+    for name in ('cells_map', 'cells_map_par', 'cells_map_flatten', 'cells_map_flatten_par', 'flatten'):
+        try:
+            _, body = find_macro(toks, name)
+            macros[name] = chain_of(body)
+        except Unparsed:
+            pass
+    par, seq = [], []
+    i = 0
+    n = len(toks)
+    while i < n:
+        # `# [ cfg ( feature = "rayon" ) ]`  /  `# [ cfg ( not ( feature = "rayon" ) ) ]`
+        if toks[i][1] == '#' and i + 2 < n and toks[i + 1][1] == '[' and toks[i + 2][1] == 'cfg':
+            j = find_matching(toks, i + 1, '[', ']')
+            attr = ' '.join(t[1] for t in toks[i + 2:j])
+            if 'rayon' in attr:
+                neg = 'not' in attr
+                st, k = stmt_after(toks, j + 1)
+                if st and st[0][1] != 'use':
+                    # a macro invocation `name ! ( .. )` anywhere at depth 0 contributes the macro's chain
+                    ch = []
+                    d = 0
+                    q = 0
+                    while q < len(st):
+                        t = st[q][1]
+                        if t in '([{':
+                            d += 1
+                        elif t in ')]}':
+                            d -= 1
+                        elif d == 0 and st[q][0] == 'id' and q + 1 < len(st) and st[q + 1][1] == '!':
+                            if t not in macros:
+                                raise Unparsed("unknown macro %s! in a rayon-guarded statement" % t)
+                            ch.extend(macros[t])
+                        q += 1
+                    ch.extend(chain_of(st))
+                    (seq if neg else par).append(ch)
+                i = k
+                continue
+        i += 1
+    if not par or len(par) != len(seq):
+        raise Unparsed("rayon-guarded statements do not come in parallel/sequential pairs (%d vs %d)" % (len(par), len(seq)))
+    # interior mutability / global state reachable from the loops: anything in src except the hooks module and test modules
+    import re
+    hits = []
+    for root, _, files in os.walk(os.path.join(REPO, 'src')):
+        for f in files:
+            if not f.endswith('.rs') or f == 'verif_hooks.rs':
+                continue
+            text = open(os.path.join(root, f)).read()
+            text = re.split(r"#\[cfg\(test\)\]", text)[0]
+            text = re.sub(r"//.*", "", text)
+            text = re.sub(r"#\[cfg\(meshless_voro_verif\)\]\s*\n[^\n]*\n", "", text)
+            for m in re.finditer(r"\b(Mutex|RwLock|Atomic\w+|RefCell|UnsafeCell|OnceCell|static\s+mut|thread_rng|thread_local|unsafe|SystemTime|Instant)\b|\bCell<", text):
+                hits.append("%s:%s" % (f, m.group(0)))
+
+    def lean_list(l):
+        return '[' + ', '.join('"%s"' % x for x in l) + ']'
+    out = ["/-- method-call chains (nesting depth 0, macros expanded) of the statements guarded by `cfg(feature = \"rayon\")` in src/voronoi.rs, in source order -/",
+           "def parLoops : List (List String) := [" + ', '.join(lean_list(c) for c in par) + "]",
+           "/-- same for the statements guarded by `cfg(not(feature = \"rayon\"))` -/",
+           "def seqLoops : List (List String) := [" + ', '.join(lean_list(c) for c in seq) + "]",
+           "/-- occurrences of interior mutability / global state / clocks / randomness / unsafe in src (hooks module and test modules excluded) -/",
+           "def sharedStateHits : List String := " + lean_list(sorted(set(hits)))]
+    return '\n'.join(out) + '\n'
+
 # --------------------------------------------------------------------------
 FRAGMENTS = [
     # (module name, source files, generator, imports)
@@ -545,6 +653,7 @@ FRAGMENTS = [
     ('Face', ['src/voronoi/convex_cell.rs', 'src/voronoi/voronoi_face.rs'], gen_face, []),
     ('Grid', ['src/voronoi/boundary.rs'], gen_grid, []),
     ('Space', ['src/space.rs'], gen_space, []),
+    ('Par', ['src/voronoi.rs'], gen_par, []),
 ]
 
 
@@ -552,6 +661,7 @@ FRAGMENTS = [
 STUBS = {
     'InSphere': "def inSphereDet (a b c d v : I3 Int) : Int := 0\n" + ''.join("def signExtract_%s (determinant : Int) : Int := 0\n" % b for b in BACKENDS),
     'Face': "def clipNormalSign : Int := 0\ndef storedNormalSign : Int := 0\n",
+    'Par': "def parLoops : List (List String) := []\ndef seqLoops : List (List String) := []\ndef sharedStateHits : List String := []\n",
     'Space': "def cellLocAxes : List Nat := []\n",
     'Grid': "def gridPad : Rat := 0\ndef gridSpan : Rat := 1\ndef mantissaMask : Nat := 0\n",
 }
